@@ -41,9 +41,13 @@ def v1_file(counts, extra=0, cut=0):
     b = header(0, counts) + [FREE] * body_len(counts, 4) + [FREE] * extra
     return b[:len(b) - cut] if cut else b
 
-def v2_file(ver, counts1, counts2, ftr, cut=0):
-    """version-2/3 file: v1 header+block with counts1, second header+block (8-byte times) with counts2, footer template"""
-    b = header(ver, counts1) + [FREE] * body_len(counts1, 4) + header(ver, counts2) + [FREE] * body_len(counts2, 8) + footer(ftr)
+def v2_file(ver, counts1, counts2, ftr, cut=0, ver2=None, extra=0):
+    """version-2/3 file: v1 header+block with counts1, second header (version byte ver2, default the same) + block (8-byte times)
+    with counts2, footer template"""
+    # (when the second header names another version the reader may take block bytes for footer text: kept to lower-case letters there:
+    # the footer model does not cover arbitrary non-UTF-8 bytes at free positions, and several free bytes of footer are slow)
+    blk = [FREE] if ver2 is None else [(97, 122)]
+    b = header(ver, counts1) + [FREE] * body_len(counts1, 4) + header(ver if ver2 is None else ver2, counts2) + blk * (body_len(counts2, 8) + extra) + footer(ftr)
     return b[:len(b) - cut] if cut else b
 
 # ---- footer templates
@@ -111,6 +115,12 @@ def c19_reader_shapes(tier, seed=0):
             out.append(('v2 counts %s footer %s' % (c2, tpl_str(tpl)), v2_file(0x32, (0, 0, 0, 0, 0, 0), c2, tpl), ('on',)))
     for cut in (1, 2, 7):
         out.append(('v2 file cut %d bytes short' % cut, v2_file(0x32, (0, 0, 0, 1, 1, 0), (0, 0, 0, 1, 1, 0), 'Naaadaaa,Md.d.d,Md.d.dN', cut=cut), ('on',)))
+    # (4b) second header disagreeing with the first one about the version (incl. version 1, whose times are 4 bytes)
+    for ver, ver2 in ((0x32, 0), (0x33, 0), (0x32, 0x33), (0x33, 0x32), (0x32, (1, 0x31)), (0x33, (0x34, 255))):
+        for c2 in ([(0, 0, 0, 1, 1, 0)] if not thorough else [(0, 0, 0, 1, 1, 0), (0, 0, 0, 0, 1, 0), (0, 0, 0, 2, 2, 0)]):
+            for extra in (0, 4):
+                out.append(('first header version %s, second header version byte %s, counts %s, %d extra block bytes, footer NaaadN' % (chr(ver), ver2, c2, extra),
+                            v2_file(ver, (0, 0, 0, 0, 0, 0), c2, 'NaaadN', ver2=ver2, extra=extra), ('on',)))
     # (5) single-edit mutations of footers (one free ASCII byte substituted / inserted, or one position deleted)
     muts = []
     for b in (MUT_BASES if not thorough else MUT_BASES + FIXED + ALT):
